@@ -224,6 +224,8 @@ def stored_points(h, solver="Newton", seed=0):
     else:
         pts = calls[1:]         # (the first solve, in the constructor, fixes the initial arc length)
         h.holds("Riks: initial point plus one returned point per nonlinear solve", len(out.t) == len(pts) + 1)
+        h.eq("Riks: returned q[0] is the result of the initial solve (equilibrium for la_arc0)", out.q[0], calls[0]["x"][:nq])
+        h.eq("Riks: returned load factor [0] is la_arc0", out.t[0], 0.125)
         for i, c in enumerate(pts):
             h.eq(f"Riks: returned q[{i + 1}] is the result of solve {i + 1}", out.q[i + 1], c["x"][:nq])
             h.eq(f"Riks: returned load factor [{i + 1}] is the result of solve {i + 1}", out.t[i + 1], c["x"][-1])
